@@ -68,6 +68,7 @@ Section ServerProofs.
   (* ---- C04 through the server: the answering route is the one the routing rule names ---- *)
   Theorem server_routes_by_rule (c : config) p req :
     Blacklist.serve ipp (cf_bl_mode c =? BLOCK_MODE) (cf_bl_list c) p (r_headers req) <> Dropped ->
+    is_upgrade req = false ->
     let host := option_map scalars (hget (HKnown H_Host) (r_headers req)) in
     let uri := scalars (r_uri req) in
     exists choice, Routes (map subapp_of (cf_hosts c)) (subapp_of (cf_default_host c)) host uri choice /\
@@ -78,10 +79,10 @@ Section ServerProofs.
           dispatch fs c rt (Blacklist.serve ipp (cf_bl_mode c =? BLOCK_MODE) (cf_bl_list c) p (r_headers req)) req
       end.
   Proof.
-    intros Hnd host uri.
+    intros Hnd Hup host uri.
     exists (get_handler (map subapp_of (cf_hosts c)) (subapp_of (cf_default_host c)) host uri).
     split; [apply get_handler_spec|].
-    unfold server_response. fold host uri.
+    unfold server_response. rewrite Hup. fold host uri.
     destruct (Blacklist.serve ipp _ _ p _) eqn:V; [contradiction| |].
     all: destruct (get_handler _ _ host uri) as [ch|] eqn:G; [|reflexivity].
     all: destruct (wiring_total _ _ _ _ G) as (rt & E & _); exists rt; split; [exact E|].
@@ -90,10 +91,65 @@ Section ServerProofs.
 
   (* ---- C19 through the server ---- *)
   Definition gives_content (r : sresp) : Prop :=
-    match r with SRedirect _ | SStatic _ | SProxy _ _ _ => True | _ => False end.
+    match r with SRedirect _ | SStatic _ | SProxy _ _ _ | SWsProxy _ => True | _ => False end.
 
   Lemma dispatch_forbidden c rt req : ~ gives_content (dispatch fs c rt Forbidden req).
   Proof. unfold dispatch. destruct (rt_type rt =? RT_ExclusiveWebSocket); cbn; tauto. Qed.
+
+  (* ---- the WebSocket routes: indices of the routes that have a target ---- *)
+  Lemma ws_indexed_from_spec rs : forall k j i r,
+    nth_error (ws_indexed_from k rs) j = Some (i, r) ->
+    (k <= i)%nat /\ nth_error rs (i - k) = Some r /\ rt_ws r <> None.
+  Proof.
+    induction rs as [|a rs IH]; intros k j i r H; cbn [ws_indexed_from] in H; [destruct j; discriminate|].
+    destruct (rt_ws a) eqn:W.
+    - destruct j as [|j'].
+      + cbn in H. injection H as <- <-. rewrite Nat.sub_diag. split; [lia|]. split; [reflexivity|]. rewrite W. discriminate.
+      + cbn in H. apply IH in H as (Hk & Hn & Hw). split; [lia|]. split; [|exact Hw].
+        replace (i - k)%nat with (S (i - S k)) by lia. exact Hn.
+    - apply IH in H as (Hk & Hn & Hw). split; [lia|]. split; [|exact Hw].
+      replace (i - k)%nat with (S (i - S k)) by lia. exact Hn.
+  Qed.
+
+  Theorem ws_wiring_total (c : config) host uri ch :
+    get_handler (map ws_subapp_of (cf_hosts c)) (ws_subapp_of (cf_default_host c)) host uri = Some ch ->
+    exists h j rt t, ws_handler_ids c ch = Some (h, j) /\ get_route c h j = Some rt /\ rt_ws rt = Some t /\
+      wildcard_match (scalars (rt_matches rt)) uri = true.
+  Proof.
+    unfold get_handler. intro H.
+    assert (D : forall ch',
+      match find_index (fun r => wildcard_match r uri) (sa_routes (ws_subapp_of (cf_default_host c))) 0 with
+      | Some (j, _) => Some (InDefault j) | None => None end = Some ch' ->
+      exists h j rt t, ws_handler_ids c ch' = Some (h, j) /\ get_route c h j = Some rt /\ rt_ws rt = Some t /\
+        wildcard_match (scalars (rt_matches rt)) uri = true).
+    { intros ch' E. destruct (find_index _ _ 0) as [[j p]|] eqn:F; [|discriminate]. injection E as <-.
+      apply find_index_some in F as (_ & Hn & Hf & _). rewrite Nat.sub_0_r in Hn.
+      cbn [ws_subapp_of sa_routes] in Hn. apply nth_error_map_some in Hn as ([i rt] & Hrt & ->).
+      pose proof (ws_indexed_from_spec _ _ _ _ _ Hrt) as (_ & Hnth & Hw). rewrite Nat.sub_0_r in Hnth.
+      destruct (rt_ws rt) as [t|] eqn:W; [|contradiction].
+      exists O, i, rt, t. cbn [ws_handler_ids]. unfold ws_indexed in Hrt |- *. rewrite Hrt. cbn [option_map fst get_route].
+      auto. }
+    destruct host as [h|]; [|apply D; exact H].
+    destruct (find_index (fun s => wildcard_match (sa_host s) h) (map ws_subapp_of (cf_hosts c)) 0) as [[i s]|] eqn:FH;
+      [|apply D; exact H].
+    destruct (find_index (fun r => wildcard_match r uri) (sa_routes s) 0) as [[j p]|] eqn:FR; [|apply D; exact H].
+    injection H as <-.
+    apply find_index_some in FH as (_ & Hn & _ & _). rewrite Nat.sub_0_r in Hn.
+    apply nth_error_map_some in Hn as (hc & Hhc & ->).
+    apply find_index_some in FR as (_ & Hr & Hfr & _). rewrite Nat.sub_0_r in Hr.
+    cbn [ws_subapp_of sa_routes] in Hr. apply nth_error_map_some in Hr as ([k rt] & Hrt & ->).
+    pose proof (ws_indexed_from_spec _ _ _ _ _ Hrt) as (_ & Hnth & Hw). rewrite Nat.sub_0_r in Hnth.
+    destruct (rt_ws rt) as [t|] eqn:W; [|contradiction].
+    exists (S i), k, rt, t. cbn [ws_handler_ids]. rewrite Hhc. unfold ws_indexed in Hrt |- *. rewrite Hrt.
+    cbn [option_map fst get_route]. rewrite Hhc. auto.
+  Qed.
+
+  Lemma ws_forbidden c req :
+    ws_response c Forbidden req = SClosed \/ ws_response c Forbidden req = SForbidden.
+  Proof.
+    unfold ws_response. destruct (get_handler _ _ _ _) as [ch|] eqn:G; [|left; reflexivity].
+    destruct (ws_wiring_total _ _ _ _ G) as (h & j & rt & t & E & _). rewrite E. right; reflexivity.
+  Qed.
 
   (* a client at a listed address never receives content from any route type, whatever it sends *)
   Theorem server_listed_never_content (c : config) p req :
@@ -102,6 +158,8 @@ Section ServerProofs.
     intro Hl. unfold server_response.
     pose proof (listed_never_served ipp (cf_bl_mode c =? BLOCK_MODE) (cf_bl_list c) p (r_headers req) Hl) as NS.
     destruct (Blacklist.serve ipp _ _ p _) eqn:V; [cbn; tauto| |contradiction].
+    destruct (is_upgrade req).
+    { destruct (ws_forbidden c req) as [E|E]; rewrite E; cbn; tauto. }
     destruct (get_handler _ _ _ _) as [ch|]; [|cbn; tauto].
     destruct (handler_ids ch) as [h j]. destruct (get_route c h j) as [rt|]; [|cbn; tauto].
     apply dispatch_forbidden.
@@ -117,27 +175,31 @@ Section ServerProofs.
 
   Theorem server_listed_forbidden_mode (c : config) p req :
     mem (p_ip p) (cf_bl_list c) = true -> cf_bl_mode c <> BLOCK_MODE ->
-    response c p req = SNotFound \/ response c p req = SWsOnly \/ response c p req = SForbidden.
+    response c p req = SNotFound \/ response c p req = SWsOnly \/ response c p req = SForbidden \/ response c p req = SClosed.
   Proof.
     intros Hl Hm. unfold server_response. apply N.eqb_neq in Hm. rewrite Hm.
     destruct (listed_block_dropped_forbidden_403 ipp (cf_bl_list c) p (r_headers req) Hl) as [_ E]. rewrite E.
+    destruct (is_upgrade req).
+    { destruct (ws_forbidden c req) as [E'|E']; rewrite E'; tauto. }
     destruct (get_handler _ _ _ _) as [ch|] eqn:G; [|left; reflexivity].
     destruct (wiring_total _ _ _ _ G) as (rt & E' & _).
     destruct (handler_ids ch) as [h j]; cbn [fst snd] in E'; rewrite E'.
-    unfold dispatch. destruct (rt_type rt =? RT_ExclusiveWebSocket); [right; left|right; right]; reflexivity.
+    unfold dispatch. destruct (rt_type rt =? RT_ExclusiveWebSocket); [right; left|right; right; left]; reflexivity.
   Qed.
 
   (* a request forwarded by an unlisted peer on behalf of a listed address: 403 on every routed path *)
   Theorem server_forwarded_listed (c : config) p req a :
     mem (p_ip p) (cf_bl_list c) = false -> In a (forwarded ipp (r_headers req)) -> mem a (cf_bl_list c) = true ->
-    response c p req = SNotFound \/ response c p req = SWsOnly \/ response c p req = SForbidden.
+    response c p req = SNotFound \/ response c p req = SWsOnly \/ response c p req = SForbidden \/ response c p req = SClosed.
   Proof.
     intros Hp Hin Ha. unfold server_response.
     rewrite (forwarded_listed_403 ipp _ (cf_bl_list c) p (r_headers req) a Hp Hin Ha).
+    destruct (is_upgrade req).
+    { destruct (ws_forbidden c req) as [E'|E']; rewrite E'; tauto. }
     destruct (get_handler _ _ _ _) as [ch|] eqn:G; [|left; reflexivity].
     destruct (wiring_total _ _ _ _ G) as (rt & E' & _).
     destruct (handler_ids ch) as [h j]; cbn [fst snd] in E'; rewrite E'.
-    unfold dispatch. destruct (rt_type rt =? RT_ExclusiveWebSocket); [right; left|right; right]; reflexivity.
+    unfold dispatch. destruct (rt_type rt =? RT_ExclusiveWebSocket); [right; left|right; right; left]; reflexivity.
   Qed.
 
   (* clients whose own and forwarded addresses are all unlisted are served normally: the route's handler answers *)
@@ -145,6 +207,7 @@ Section ServerProofs.
     mem (p_ip p) (cf_bl_list c) = false ->
     (forall a, In a (forwarded ipp (r_headers req)) -> mem a (cf_bl_list c) = false) ->
     response c p req =
+    if is_upgrade req then ws_response c Served req else
     match get_handler (map subapp_of (cf_hosts c)) (subapp_of (cf_default_host c))
                       (option_map scalars (hget (HKnown H_Host) (r_headers req))) (scalars (r_uri req)) with
     | None => SNotFound
@@ -156,23 +219,46 @@ Section ServerProofs.
   Proof.
     intros Hp Hall. unfold server_response.
     rewrite (unlisted_served ipp _ (cf_bl_list c) p (r_headers req) Hp Hall).
+    destruct (is_upgrade req); [reflexivity|].
     destruct (get_handler _ _ _ _) as [ch|]; [|reflexivity].
     destruct (handler_ids ch) as [h j]. reflexivity.
   Qed.
 
+  (* an unlisted client's upgrade request: tunnelled to the target of the first matching WebSocket route, else closed *)
+  Theorem server_unlisted_upgrade (c : config) req :
+    ws_response c Served req = SClosed \/
+    exists h j rt t, get_route c h j = Some rt /\ rt_ws rt = Some t /\
+      wildcard_match (scalars (rt_matches rt)) (scalars (r_uri req)) = true /\ ws_response c Served req = SWsProxy t.
+  Proof.
+    unfold ws_response. destruct (get_handler _ _ _ _) as [ch|] eqn:G; [|left; reflexivity].
+    destruct (ws_wiring_total _ _ _ _ G) as (h & j & rt & t & E & GR & W & M). right.
+    exists h, j, rt, t. rewrite E, GR, W. auto.
+  Qed.
+
   (* ---- C06 through the server: what a directory route returns is a file under its directory ---- *)
+  Lemma ws_not_static c v req r : ws_response c v req <> SStatic r.
+  Proof.
+    unfold ws_response. destruct (get_handler _ _ _ _); [|discriminate].
+    destruct (ws_handler_ids c _) as [[h j]|]; [|discriminate].
+    destruct v; try discriminate; destruct (get_route c h j) as [rt|]; try discriminate; destruct (rt_ws rt); discriminate.
+  Qed.
+
   Theorem server_directory_confined (c : config) p req body ct :
     response c p req = SStatic (R200 body ct) ->
-    exists ch rt, get_route c (fst (handler_ids ch)) (snd (handler_ids ch)) = Some rt /\
+    exists ch rt,
+      get_handler (map subapp_of (cf_hosts c)) (subapp_of (cf_default_host c))
+                  (option_map scalars (hget (HKnown H_Host) (r_headers req))) (scalars (r_uri req)) = Some ch /\
+      get_route c (fst (handler_ids ch)) (snd (handler_ids ch)) = Some rt /\
       (rt_type rt = RT_Directory ->
        forall d root, rt_path rt = Some d -> walk fs [] (split_on SLASH (trim_end_slashes d)) = Some root ->
        exists loc, under root loc /\ node_at fs loc = Some (File body)).
   Proof.
     unfold server_response. intro H.
     destruct (Blacklist.serve ipp _ _ p _) eqn:V; [discriminate| |].
+    all: destruct (is_upgrade req); [exfalso; eapply ws_not_static; exact H|].
     all: destruct (get_handler _ _ _ _) as [ch|] eqn:G; [|discriminate].
     all: destruct (handler_ids ch) as [h j] eqn:Hid; destruct (get_route c h j) as [rt|] eqn:GR; [|discriminate].
-    all: exists ch, rt; rewrite Hid; cbn [fst snd]; split; [exact GR|].
+    all: exists ch, rt; rewrite Hid; cbn [fst snd]; split; [reflexivity|]; split; [exact GR|].
     all: intros Hty d root Hd Hw; unfold dispatch in H; rewrite Hty in H.
     all: change (RT_Directory =? RT_ExclusiveWebSocket) with false in H; cbv iota in H.
     - discriminate.
